@@ -11,10 +11,20 @@
 //!       free-running threads hammer `Timestamp::now` (even threads: real clock, odd threads: a
 //!       clock running backwards); the real-time order is reconstructed from tickets of one
 //!       SeqCst counter taken immediately before and after each call.
+//!   `repub <threads> <calls> <seed> <dups> <tasks>`
+//!       republish ordering end to end (lean/IrohModel/C33/Republish.lean): `threads` threads of this
+//!       process publish `calls` numbered endpoint infos each through the real
+//!       `EndpointInfo::to_pkarr_signed_packet` (real `Timestamp::now` + real signing; odd threads
+//!       see a wall clock running backwards), then one final info is published after all threads
+//!       have finished.  All packets, each `1 + dups` times, are shuffled (seeded) and PUT to the
+//!       real in-process DNS server core from `tasks` concurrent tasks.  Oracle: the store holds the
+//!       final packet; it decodes to the final info; no publication started after the stored
+//!       one's call returned.
 //! output:
 //!   sched : chronological events `i<t>` (call starts) `l<t>=<v>` (`now` produced v) `r<t>=<v>`
 //!           (returned to the caller) `p<t>` (panicked), then `cell=<final cell>`
 //!   stress: `stress returned=<n> panics=<n>`
+//!   repub : `repub published=<n> stored=final decoded=final`
 use std::{
     panic::{AssertUnwindSafe, catch_unwind},
     rc::Rc,
@@ -24,10 +34,16 @@ use std::{
     },
 };
 
-use iroh_dns::pkarr::{
-    Timestamp,
-    verif_hooks::{self, Point},
+use hdns::dnssrv::{default_origins, opts_no_evict, runtime};
+use iroh_base::{RelayUrl, SecretKey, TransportAddr};
+use iroh_dns::{
+    endpoint_info::{EndpointData, EndpointInfo, UserData},
+    pkarr::{
+        SignedPacket, Timestamp,
+        verif_hooks::{self, Point},
+    },
 };
+use iroh_dns_server::verif_hooks::Core;
 use vcommon::*;
 
 struct C33;
@@ -304,6 +320,156 @@ fn run_stress(threads: usize, calls: usize) -> Exec {
     ex
 }
 
+fn numbered_info(sk: &SecretKey, label: &str) -> EndpointInfo {
+    let relay: RelayUrl = "https://relay.example.com/?k=v=w".parse().expect("url");
+    let mut data = EndpointData::new(vec![
+        TransportAddr::Relay(relay),
+        TransportAddr::Ip("192.0.2.7:4433".parse().expect("addr")),
+    ]);
+    data.set_user_data(Some(UserData::try_from(label.to_string()).expect("user data")));
+    EndpointInfo::from_parts(sk.public(), data)
+}
+
+/// (ticket before the signing call, packet, ticket after it, label)
+type Publication = (u64, SignedPacket, u64, String);
+
+fn run_repub(threads: usize, calls: usize, seed: u64, dups: usize, tasks: usize) -> Exec {
+    verif_hooks::set_last_timestamp(0);
+    TICKET.store(0, Ordering::SeqCst);
+    let sk = SecretKey::from_bytes(&[0x33; 32]);
+    let barrier = std::sync::Arc::new(std::sync::Barrier::new(threads.max(1)));
+    let handles: Vec<_> = (0..threads)
+        .map(|i| {
+            let barrier = barrier.clone();
+            let sk = sk.clone();
+            std::thread::spawn(move || {
+                let mut recs: Vec<Publication> = Vec::with_capacity(calls);
+                barrier.wait();
+                for k in 0..calls {
+                    if i % 2 == 1 {
+                        verif_hooks::set_clock_override(Some(4_000_000_000_000_000_000 - (k as u64) * 5 - i as u64));
+                    }
+                    let label = format!("t{i}-n{k}");
+                    let info = numbered_info(&sk, &label);
+                    let t0 = TICKET.fetch_add(1, Ordering::SeqCst);
+                    let p = info.to_pkarr_signed_packet(&sk, 30).expect("encodes");
+                    let t1 = TICKET.fetch_add(1, Ordering::SeqCst);
+                    recs.push((t0, p, t1, label));
+                }
+                verif_hooks::set_clock_override(None);
+                recs
+            })
+        })
+        .collect();
+    let mut all: Vec<Publication> = Vec::new();
+    for h in handles {
+        all.extend(h.join().expect("publisher thread"));
+    }
+    // the most recent publication: starts after every other one has returned
+    let final_info = numbered_info(&sk, "final");
+    let t0 = TICKET.fetch_add(1, Ordering::SeqCst);
+    let final_packet = final_info.to_pkarr_signed_packet(&sk, 30).expect("encodes");
+    let t1 = TICKET.fetch_add(1, Ordering::SeqCst);
+    all.push((t0, final_packet.clone(), t1, "final".to_string()));
+
+    // the network: duplicates, shuffled, a few junk bodies, concurrent delivery
+    let mut deliveries: Vec<Vec<u8>> = Vec::new();
+    for (_, p, _, _) in &all {
+        for _ in 0..=dups {
+            deliveries.push(p.to_relay_payload());
+        }
+    }
+    let mut rng = Rng::new(seed);
+    for _ in 0..3 {
+        let mut junk = final_packet.to_relay_payload();
+        let i = rng.usize_below(junk.len());
+        junk[i] ^= 0x40;
+        deliveries.push(junk);
+    }
+    rng.shuffle(&mut deliveries);
+    let z32 = sk.public().to_z32();
+    let tasks = tasks.max(1);
+    let rt = runtime();
+    let (stored, statuses) = rt.block_on(async {
+        let core = std::sync::Arc::new(Core::in_memory(opts_no_evict(), default_origins()).expect("core"));
+        let mut chunks: Vec<Vec<Vec<u8>>> = vec![Vec::new(); tasks];
+        for (i, d) in deliveries.into_iter().enumerate() {
+            chunks[i % tasks].push(d);
+        }
+        let mut joins = Vec::new();
+        for chunk in chunks {
+            let core = core.clone();
+            let z32 = z32.clone();
+            joins.push(tokio::spawn(async move {
+                let mut st = Vec::new();
+                for body in chunk {
+                    st.push(core.pkarr_put(&z32, bytes::Bytes::from(body)).await);
+                }
+                st
+            }));
+        }
+        let mut statuses = Vec::new();
+        for j in joins {
+            statuses.extend(j.await.expect("delivery task"));
+        }
+        let stored = core.store_get(*sk.public().as_bytes()).await.expect("store get");
+        (stored, statuses)
+    });
+    drop(rt);
+
+    let mut ex = Exec::default();
+    let rejected = statuses.iter().filter(|s| **s >= 400).count();
+    if rejected != 3 {
+        ex.violation("delivery-status", format!("{rejected} PUTs rejected, expected exactly the 3 corrupted bodies"));
+    }
+    let stored_label = match &stored {
+        None => "none".to_string(),
+        Some(p) => all
+            .iter()
+            .find(|(_, q, _, _)| q.as_bytes() == p.as_bytes())
+            .map_or("unknown".to_string(), |(_, _, _, l)| l.clone()),
+    };
+    if stored_label != "final" {
+        ex.violation("last-published-lost", format!("the store holds `{stored_label}` instead of the most recent publication"));
+    }
+    let decoded = stored
+        .as_ref()
+        .and_then(|p| EndpointInfo::from_pkarr_signed_packet(p).ok());
+    let decoded_label = match &decoded {
+        Some(i) if *i == final_info => "final".to_string(),
+        Some(i) => format!("other({:?})", i.user_data()),
+        None => "none".to_string(),
+    };
+    if decoded_label != "final" {
+        ex.violation("decoded-info-differs", format!("lookup decodes to {decoded_label}"));
+    }
+    // real-time order of the signing calls vs. timestamps, and distinctness
+    if let Some(p) = &stored {
+        if let Some((_, _, w1, _)) = all.iter().find(|(_, q, _, _)| q.as_bytes() == p.as_bytes()) {
+            if let Some((_, _, _, l)) = all.iter().find(|(b0, _, _, _)| b0 > w1) {
+                ex.violation("stored-superseded", format!("publication `{l}` started after the stored one returned"));
+            }
+        }
+    }
+    let mut ts: Vec<u64> = all.iter().map(|(_, p, _, _)| p.timestamp().as_micros()).collect();
+    ts.sort_unstable();
+    if ts.windows(2).any(|w| w[0] == w[1]) {
+        ex.violation("duplicate", "two publications carry the same timestamp");
+    }
+    for (a0, pa, a1, la) in &all {
+        let _ = a0;
+        for (b0, pb, _, lb) in &all {
+            if a1 < b0 && pa.timestamp() >= pb.timestamp() {
+                ex.violation("not-increasing", format!("`{la}` returned before `{lb}` started but is not older"));
+            }
+        }
+    }
+    ex.out = format!("repub published={} stored={stored_label} decoded={decoded_label}", all.len());
+    ex.tags.push("repub".into());
+    ex.nontrivial = true;
+    ex
+}
+
 fn sched_payload(cell0: u64, clocks: &[Vec<u64>], sched: &[u64]) -> String {
     format!(
         "sched {cell0} {} {}",
@@ -321,6 +487,16 @@ impl Prop for C33 {
         // free-running stress runs
         out.push("stress 16 50000".into());
         out.push("stress 2 200000".into());
+        // republish ordering through the real signer and the real server store
+        for (t, k, d, tasks) in [(4usize, 40usize, 1usize, 4usize), (1, 30, 2, 1), (8, 12, 0, 3)] {
+            out.push(format!("repub {t} {k} {} {d} {tasks}", rng.u64() % 1_000_000));
+        }
+        if tier == Tier::Thorough {
+            for _ in 0..12 {
+                let (t, k) = (rng.range(1, 8), rng.range(1, 60));
+                out.push(format!("repub {t} {k} {} {} {}", rng.u64() % 1_000_000, rng.below(3), rng.range(1, 6)));
+            }
+        }
         if tier == Tier::Thorough {
             out.push("stress 64 20000".into());
             out.push("stress 16 200000".into());
@@ -397,6 +573,13 @@ impl Prop for C33 {
                 let clocks: Vec<Vec<u64>> = cl.split('|').map(list).collect();
                 run_sched(cell0, &clocks, &list(sc))
             }
+            ["repub", th, calls, seed, dups, tasks] => run_repub(
+                th.parse().expect("threads"),
+                calls.parse().expect("calls"),
+                seed.parse().expect("seed"),
+                dups.parse().expect("dups"),
+                tasks.parse().expect("tasks"),
+            ),
             ["stress", th, calls] => run_stress(th.parse().expect("threads"), calls.parse().expect("calls")),
             _ => Exec::new("bad-input"),
         }
